@@ -332,7 +332,9 @@ def _reductions(model):
     all_names = [f[0] for f in features(model)]
     for nm in all_names:
         if not (isinstance(nm, str) and nm.isalnum() and nm.isascii() and len(nm) == 2 and nm[0].isupper() and nm[1].islower()):
-            plain = next(p for p in ('Fa', 'Bb', 'Dc', 'Ad', 'Ee', 'Cf', 'Gg', 'Ah', 'Zi', 'Bj', 'Mk', 'Cl', 'Xx', 'Yy') if p not in all_names)
+            plain = next((p for p in ('Fa', 'Bb', 'Dc', 'Ad', 'Ee', 'Cf', 'Gg', 'Ah', 'Zi', 'Bj', 'Mk', 'Cl', 'Xx', 'Yy') if p not in all_names), None)
+            if plain is None:
+                break       # more specially named features than plain names: shrink the model first
             m = _rename_everywhere(model, nm, plain)
             if emit(m):
                 yield m
